@@ -57,9 +57,22 @@ pub mod stubs {
         unsafe { core::str::from_utf8_unchecked(&b[..n]) }
     }
     pub fn trim_ascii(s: &str) -> &str { trim_end_ascii(trim_start_ascii(s)) }
+    /// the pattern as bytes: P is &str (16 bytes), &String (8 bytes) or char (4 bytes); `buf` receives a char's UTF-8 encoding
     fn as_str_pat<P: Pattern>(pat: &P) -> &'static str {
-        assert!(core::mem::size_of::<P>() == core::mem::size_of::<&str>());
-        unsafe { core::mem::transmute_copy::<P, &'static str>(pat) }
+        let n = core::mem::size_of::<P>();
+        if n == core::mem::size_of::<&str>() {
+            unsafe { core::mem::transmute_copy::<P, &'static str>(pat) }
+        } else if n == core::mem::size_of::<&String>() {
+            let r: &'static String = unsafe { core::mem::transmute_copy::<P, &'static String>(pat) };
+            r.as_str()
+        } else {
+            assert!(n == 4, "unsupported Pattern type in string stub");
+            let c: char = unsafe { core::mem::transmute_copy::<P, char>(pat) };
+            // chars the harness alphabets use as patterns (ASCII and the few separators MathCAT searches for)
+            match c { '.' => ".", ',' => ",", ' ' => " ", '-' => "-", '\'' => "'", '\u{a0}' => "\u{a0}", '\u{202f}' => "\u{202f}",
+                      '0' => "0", '1' => "1", '2' => "2", '3' => "3", '4' => "4", '5' => "5", '6' => "6", '7' => "7", '8' => "8", '9' => "9",
+                      _ => { assert!(false, "char pattern outside the stub's table"); "" } }
+        }
     }
     fn find_bytes(b: &[u8], p: &[u8]) -> Option<usize> {
         if p.len() > b.len() { return None; }
